@@ -58,6 +58,7 @@ type FuncVer struct {
 	siteOrd    map[string]map[token.Pos]bool
 	stepBudget int
 	heapSorts  map[string]*Sort
+	ghostLocals map[string]*ghostLocal
 	entryVars  map[string]SVal
 }
 
